@@ -25,7 +25,7 @@ EXC = {'std::invalid_argument': 1, 'std::runtime_error': 2, 'std::length_error':
 
 
 SYSREC = {'in_addr': 'cxx_in_addr', 'in6_addr': 'cxx_in6_addr', 'timeval': 'cxx_timeval',
-          'std::random_device': 'cxx_random_device'}
+          'std::random_device': 'cxx_random_device', 'std::mt19937_64': 'cxx_rng', 'std::mt19937': 'cxx_rng'}
 
 
 def mangle(q):
@@ -361,6 +361,8 @@ class Lowering:
                 return name
             if n == 'std::initializer_list':
                 return self.ctype(T('tmpl', 'std::span', args=[t.args[0]]))
+            if n in ('std::mersenne_twister_engine', 'std::uniform_int_distribution'):
+                return 'cxx_rng'   # opaque: every draw is an arbitrary value of the result type (PRNG not modelled)
         raise LoweringError(f'no C type for {t!r}')
 
     def typedef(self, name, text):
@@ -462,7 +464,8 @@ class Lowering:
                     'std::basic_string': 'string', 'std::basic_string_view': 'strview', 'std::optional': 'optional',
                     'std::chrono::duration': 'duration', 'std::chrono::time_point': 'time_point',
                     'std::unordered_map': 'map', 'std::map': 'map', 'std::pair': 'pair', 'enum': 'enum',
-                    'iter': 'iter', 'std::initializer_list': 'span', 'std::variant': 'variant'}.get(t.name, t.name)
+                    'iter': 'iter', 'std::initializer_list': 'span', 'std::variant': 'variant',
+                    'std::mersenne_twister_engine': 'rng', 'std::uniform_int_distribution': 'rng'}.get(t.name, t.name)
         if t.kind == 'rec':
             return 'rec'
         return t.kind
@@ -603,6 +606,12 @@ class Unit(Lowering, ExprMixin, CallMixin, StmtMixin):
         L += ['', '/* ---- definitions ---- */']
         for cname, text in self.bodies:
             L.append(text)
+        # keep the symbols of declared-only (contract-replaced) functions alive even when a changed caller no longer calls
+        # them: goto-instrument --replace-call-with-contract aborts on a missing symbol, and the harness assertions (not a
+        # tool error) must decide that case
+        decl_only = sorted(c for c, i in self.fninfo.items() if not i.get('has_body') and i.get('contract'))
+        if decl_only:
+            L.append('void *__cxx_keep_%s[] = {%s};' % (re.sub(r'\W', '_', self.spec.unit), ', '.join('(void *)' + c for c in decl_only)))
         L += ['/* ---- epilogue (spec) ---- */'] + self.spec.epilogue
         return '\n'.join(L) + '\n'
 
